@@ -99,9 +99,13 @@ def run_case(part, case, stats, known):
         # shrink budget used up: stop evaluating, let Hypothesis wind down
         return 'skipped'
     try:
-        with ambient.applied(case):
+        with ambient.applied(case) as amb:
             labels = part.check(case)
         labels = set(labels or ())
+        if amb['verbosity']:
+            labels.add('ambient:-' + 'v' * amb['verbosity'])
+        if amb['tz']:
+            labels.add('ambient:process-TZ-set')
     except Reject as rej:
         if not stats.frozen:
             stats.rejected[rej.why] += 1
@@ -403,7 +407,7 @@ def main(argv=None):
     coverage = {
         'evaluations': evaluations,
         'distinct_nontrivial': distinct,
-        'rule': module.RULE,
+        'rule': module.RULE + ambient.RULE_SUFFIX,
         'samples': samples,
         'exhaustive': bool(per_part) and all(
             a['exhaustive'] for a in per_part.values()),
